@@ -29,7 +29,7 @@ def run(ctx):
 
     cross, special = sessionsim.c16_systematic()
     rs = random.Random(ctx.seed + 11)
-    cases = [(sess_common.CFGS[i % 2], s) for i, s in enumerate(special + rs.sample(cross, 300 if ctx.quick else 3000))]
+    cases = [(sess_common.CFGS[i % 2], s) for i, s in enumerate(special + rs.sample(cross, min(len(cross), 300 if ctx.quick else 3000)))]
     res = sess_common.run_family(ctx, "ble_calls", cases)
     ctx.evaluations += res["n"]
     ctx.distinct |= {("ble_calls", i) for i in range(res["n"])}
